@@ -140,6 +140,13 @@ def run_case(key, tier, res):
             for _ in range(2):
                 queries.append((kind, si, None, None))
     rng.shuffle(queries)
+    # partially consumed get_applicable_actions iterators (any()/next()/break in user code): their answers are not judged, but
+    # they are queries, and "answering a query never changes the answer to any later query"
+    npeek = rng.choice([0, 1, 2, 3])
+    for _ in range(npeek):
+        queries.insert(rng.randrange(len(queries) + 1), ("peek", rng.randrange(len(states)), None, None))
+    if rng.random() < 0.5:
+        queries.insert(0, ("peek", rng.randrange(len(states)), None, None))
     first = {}
     hist = []
     after_undefined = False
@@ -168,6 +175,15 @@ def run_case(key, tier, res):
         res.case()
         res.mon()
         try:
+            if kind == "peek":
+                it = sim.get_applicable_actions(st)
+                for _k in range(rng.choice([0, 1, 1, 2])):
+                    if next(it, None) is None:
+                        break
+                del it
+                res.count("partial_iterations")
+                hist.append(["peek", si, None, None])
+                continue
             if kind == "app":
                 ans = bool(sim.is_applicable(st, a, pexs[(a.name, args)]))
             elif kind == "apply":
@@ -254,6 +270,8 @@ def thresholds(m):
         out.append("fewer than 5 repeat queries followed a query that hit an undefined fluent / conflict")
     if c.get("pairs_with_effect_evaluation", 0) < 20:
         out.append("fewer than 20 pairs with conditional/forall effects or invariant-touching effects")
+    if c.get("partial_iterations", 0) < 50:
+        out.append("fewer than 50 partially consumed get_applicable_actions iterators")
     if c.get("queries_hitting_conflict", 0) < 2:
         out.append("no query hit a conflicting-assignment case")
     return out
